@@ -30,3 +30,9 @@ claim("C13", "Store-diff monitor: every key of the provider store changed by the
 claim("C14", "Authorization-table oracle over a directed matrix of real signed transactions (incl. forged signer fields and governance proposals), tx-level "
       "store diffs for rejected messages, per-validator key attribution for accepted ones, and a standing ownership/Top-N invariant in all worlds.",
       "directed hostile workload + decision-table oracle + store-diff monitor + standing invariant", "2/C14")
+claim("C05", "Shadow-registry monitor predicting every assignment outcome and compared with the provider's key index after every block, under a deliberately "
+      "small key pool, validator creation with pooled keys, removal and re-creation.", "online reference-model (shadow registry) monitor with per-block equality", "2/C05")
+claim("C06", "Shadow table of replaced keys with deadlines; retention before and pruning at the deadline asserted at every block under time steps aimed at the "
+      "deadlines; attribution of punishments through old keys via the C08 decision table.", "online reference-model monitor with deadline-targeted virtual time", "2/C06")
+claim("C20", "Shadow of (current, pending, due) per consumer compared with stored parameters, queued record and schedule after every block; boundary-call "
+      "observation of slash fraction / jail duration actually used for punishments.", "online reference-model monitor + boundary call observer", "2/C20")
